@@ -27,105 +27,111 @@ RE = 'transport::mrp::RetransEntry'
 def check(R):
     F = R.facts
     # ---- a --------------------------------------------------------------------
-    R.expect('P6', 'transport::mrp::MRP_MAX_TRANSMISSIONS', 'the retransmission budget is the protocol\'s 5 transmissions', F.const_val('transport::mrp::MRP_MAX_TRANSMISSIONS') == 5, '5',
-             str(F.const_val('transport::mrp::MRP_MAX_TRANSMISSIONS')))
-    ps = R.body(RE + '::pre_send')
-    oks = ok_return_bbs(ps)
-    R.floor('Ok return of RetransEntry::pre_send', len(oks), 1)
+    with R.clause('a'):
+        pass
+        R.expect('P6', 'transport::mrp::MRP_MAX_TRANSMISSIONS', 'the retransmission budget is the protocol\'s 5 transmissions', F.const_val('transport::mrp::MRP_MAX_TRANSMISSIONS') == 5, '5',
+                 str(F.const_val('transport::mrp::MRP_MAX_TRANSMISSIONS')))
+        ps = R.body(RE + '::pre_send')
+        oks = ok_return_bbs(ps)
+        R.floor('Ok return of RetransEntry::pre_send', len(oks), 1)
 
-    def below_budget():
-        e = set()
-        for bb, te, fe in prims.cmp_guard_edges(ps, 'Lt', lambda s: mentions(s, 'counter'), lambda s: any(x[0] == 'constp' and x[1].endswith('MRP_MAX_TRANSMISSIONS') for x in s), symmetric=False):
-            e |= te
-        return e
-    R.cut('P2', ps, 'return Ok (transmit again)', oks, 'counter < MRP_MAX_TRANSMISSIONS', below_budget)
-    errs = [i for i, j, s in ps.stmts() if s[1].get('op') == 'agg' and s[1].get('adt') == 'error::ErrorCode' and s[1].get('var') == 'TxTimeout']
-    R.expect('P2', ps.fn, 'budget exhausted yields ErrorCode::TxTimeout', bool(errs), 'TxTimeout constructed', 'TxTimeout not constructed')
-    inc = [i for i, j, s in ps.field_writes('counter:' + RE)]
-    R.cut('P2', ps, 'counter += 1', inc, 'counter < MRP_MAX_TRANSMISSIONS', below_budget)
-    rp = R.body(RM + '::pre_send')
-    t = rp.calls(RE + '::pre_send')
-    R.floor('RetransEntry::pre_send in ReliableMessage::pre_send', len(t), 1)
-    tr = prims.track_result(F, rp, t[0])
-    bad = []
-    for (frm, to) in tr.failure:
-        r = prims.reach(rp, (to,))
-        if set(ok_return_bbs(rp)) & r:
-            bad.append(rp.where(frm))
-    R.expect('P2', rp.fn, 'after the budget is exhausted no path returns Ok', bool(tr.failure) and not bad, 'the give-up edge only reaches Err',
-             f'a path from the give-up edge at {bad} returns Ok: the caller would see a success that looks like an acknowledgement')
-    for fn, callee in (('transport::exchange::ExchangeState::pre_send', RM + '::pre_send'), ('transport::session::Session::pre_send', 'transport::exchange::ExchangeState::pre_send')):
-        b = R.body(fn)
-        result_used(R, 'P8', b, (callee,))
-    n = 0
-    for c in F.callers_of('transport::session::Session::pre_send'):
-        b = F.bodies[c]
-        if b.focus:
-            result_used(R, 'P8', b, ('transport::session::Session::pre_send',))
-            n += 1
-    R.floor('callers of Session::pre_send', n, 1)
+        def below_budget():
+            e = set()
+            for bb, te, fe in prims.cmp_guard_edges(ps, 'Lt', lambda s: mentions(s, 'counter'), lambda s: any(x[0] == 'constp' and x[1].endswith('MRP_MAX_TRANSMISSIONS') for x in s), symmetric=False):
+                e |= te
+            return e
+        R.cut('P2', ps, 'return Ok (transmit again)', oks, 'counter < MRP_MAX_TRANSMISSIONS', below_budget)
+        errs = [i for i, j, s in ps.stmts() if s[1].get('op') == 'agg' and s[1].get('adt') == 'error::ErrorCode' and s[1].get('var') == 'TxTimeout']
+        R.expect('P2', ps.fn, 'budget exhausted yields ErrorCode::TxTimeout', bool(errs), 'TxTimeout constructed', 'TxTimeout not constructed')
+        inc = [i for i, j, s in ps.field_writes('counter:' + RE)]
+        R.cut('P2', ps, 'counter += 1', inc, 'counter < MRP_MAX_TRANSMISSIONS', below_budget)
+        rp = R.body(RM + '::pre_send')
+        t = rp.calls(RE + '::pre_send')
+        R.floor('RetransEntry::pre_send in ReliableMessage::pre_send', len(t), 1)
+        tr = prims.track_result(F, rp, t[0])
+        bad = []
+        for (frm, to) in tr.failure:
+            r = prims.reach(rp, (to,))
+            if set(ok_return_bbs(rp)) & r:
+                bad.append(rp.where(frm))
+        R.expect('P2', rp.fn, 'after the budget is exhausted no path returns Ok', bool(tr.failure) and not bad, 'the give-up edge only reaches Err',
+                 f'a path from the give-up edge at {bad} returns Ok: the caller would see a success that looks like an acknowledgement')
+        for fn, callee in (('transport::exchange::ExchangeState::pre_send', RM + '::pre_send'), ('transport::session::Session::pre_send', 'transport::exchange::ExchangeState::pre_send')):
+            b = R.body(fn)
+            result_used(R, 'P8', b, (callee,))
+        n = 0
+        for c in F.callers_of('transport::session::Session::pre_send'):
+            b = F.bodies[c]
+            if b.focus:
+                result_used(R, 'P8', b, ('transport::session::Session::pre_send',))
+                n += 1
+        R.floor('callers of Session::pre_send', n, 1)
 
     # ---- b --------------------------------------------------------------------
-    pr = R.body(RM + '::post_recv')
-    fld = 'retrans:' + RM
-    muts = sorted({i for i, j, s in pr.field_writes(fld)} | {i for i, j, s in pr.stmts() if s[1].get('op') == 'ref' and s[1].get('mut') and any(x == '.' + fld for x in s[1]['pl'][1:] if isinstance(x, str))})
-    R.floor('mutations of ReliableMessage.retrans in post_recv', len(muts), 1)
+    with R.clause('b'):
+        pass
+        pr = R.body(RM + '::post_recv')
+        fld = 'retrans:' + RM
+        muts = sorted({i for i, j, s in pr.field_writes(fld)} | {i for i, j, s in pr.stmts() if s[1].get('op') == 'ref' and s[1].get('mut') and any(x == '.' + fld for x in s[1]['pl'][1:] if isinstance(x, str))})
+        R.floor('mutations of ReliableMessage.retrans in post_recv', len(muts), 1)
 
-    def ack_matches():
-        e = set()
-        for bb, te, fe in prims.cmp_guard_edges(pr, 'Ne', lambda s: RE + '::get_msg_ctr' in src_calls(s), lambda s: any(c.endswith('ProtoHdr::get_ack') for c in src_calls(s)) or True):
-            e |= fe
-        for bb, te, fe in prims.cmp_guard_edges(pr, 'Eq', lambda s: RE + '::get_msg_ctr' in src_calls(s), lambda s: True):
-            e |= te
-        return e
-    R.cut('P2', pr, 'clear / take the pending retransmission entry', muts, 'acked counter == pending entry counter', ack_matches)
-    dup = [i for i, j, s in pr.stmts() if s[1].get('op') == 'agg' and s[1].get('adt') == 'error::ErrorCode' and s[1].get('var') == 'Duplicate']
-    R.expect('P2', pr.fn, 'a mismatching acknowledgement is rejected as Duplicate', bool(dup), 'Duplicate constructed', 'no Duplicate on mismatch')
-    cmpz = [c for c in prims.compare_sites(pr, ops=('Ne', 'Eq')) if RE + '::get_msg_ctr' in src_calls(prims.sources(pr, c[3]) | prims.sources(pr, c[4]))]
-    if cmpz:
-        s = prims.sources(pr, cmpz[0][3]) | prims.sources(pr, cmpz[0][4])
-        R.expect('P10', pr.fn, 'the acknowledged counter compared is the received header\'s', any(c.endswith('ProtoHdr::get_ack') for c in src_calls(s)) or any(pr.local_name(l) == 'ack_msg_ctr' for l in range(len(pr.locals))), 'rx_proto.get_ack()', f'{sorted(map(str, s))[:5]}')
-    R.writers_confined('P1', fld, {RM + '::pre_send', RM + '::post_recv', RM + '::new', '<' + RM + ' as core::default::Default>::default'}, min_sites=2)
+        def ack_matches():
+            e = set()
+            for bb, te, fe in prims.cmp_guard_edges(pr, 'Ne', lambda s: RE + '::get_msg_ctr' in src_calls(s), lambda s: any(c.endswith('ProtoHdr::get_ack') for c in src_calls(s)) or True):
+                e |= fe
+            for bb, te, fe in prims.cmp_guard_edges(pr, 'Eq', lambda s: RE + '::get_msg_ctr' in src_calls(s), lambda s: True):
+                e |= te
+            return e
+        R.cut('P2', pr, 'clear / take the pending retransmission entry', muts, 'acked counter == pending entry counter', ack_matches)
+        dup = [i for i, j, s in pr.stmts() if s[1].get('op') == 'agg' and s[1].get('adt') == 'error::ErrorCode' and s[1].get('var') == 'Duplicate']
+        R.expect('P2', pr.fn, 'a mismatching acknowledgement is rejected as Duplicate', bool(dup), 'Duplicate constructed', 'no Duplicate on mismatch')
+        cmpz = [c for c in prims.compare_sites(pr, ops=('Ne', 'Eq')) if RE + '::get_msg_ctr' in src_calls(prims.sources(pr, c[3]) | prims.sources(pr, c[4]))]
+        if cmpz:
+            s = prims.sources(pr, cmpz[0][3]) | prims.sources(pr, cmpz[0][4])
+            R.expect('P10', pr.fn, 'the acknowledged counter compared is the received header\'s', any(c.endswith('ProtoHdr::get_ack') for c in src_calls(s)) or any(pr.local_name(l) == 'ack_msg_ctr' for l in range(len(pr.locals))), 'rx_proto.get_ack()', f'{sorted(map(str, s))[:5]}')
+        R.writers_confined('P1', fld, {RM + '::pre_send', RM + '::post_recv', RM + '::new', '<' + RM + ' as core::default::Default>::default'}, min_sites=2)
 
     # ---- c --------------------------------------------------------------------
-    hr = 'transport::TransportRunner::handle_rx_packet'
-    co = async_body(R, hr)
-    ack = closure_in(R, hr, ['ProtoHdr::set_ack', 'TransportRunner::write_packet', 'Sessions::get_for_rx'])
-    sites = closure_arg_sites(co, ack.fn)
-    R.floor('with_state(duplicate ack closure)', len(sites), 1)
-    sa = ack.calls('transport::proto_hdr::ProtoHdr::set_ack')[0]
-    s = prims.sources(ack, sa.d['a'][1])
-    R.expect('P10', ack.fn, 'the re-acknowledgement carries the duplicate\'s own counter', mentions(s, 'ctr') and mentions(s, 'plain'), 'set_ack(Some(packet.header.plain.ctr))', f'{sorted(map(str, s))[:6]}', ack.where(sa.bb))
-    R.expect('P3', ack.fn, 'set_ack precedes write_packet', not prims.precedes(ack, [sa.bb], call_bbs(ack, 'transport::TransportRunner::write_packet')), 'ok', 'write_packet reachable before set_ack')
-    wp = ack.calls('transport::TransportRunner::write_packet')[0]
-    wclo = [c for (i, j, st, c) in ack.closures_built()]
-    okop = any(('agg', 'sc::OpCode', 'MRPStandAloneAck') in _closure_aggs(F, c) for c in wclo)
-    R.expect('P10', ack.fn, 'the packet written is an MRP standalone acknowledgement', okop, 'OpCode::MRPStandAloneAck', 'opcode is not MRPStandAloneAck')
-    sends = [t.bb for t in co.calls('transport::TransportRunner::netw_send')]
-    bad = prims.always_followed_by(co, [e[1] for e in _succ(R, co, sites)], sends)
-    R.expect('P3', co.fn, 'a written duplicate-ack is always sent', not bad, 'with_state(ack) ok -> netw_send', 'a path skips netw_send after writing the ack')
-    # from the Duplicate arm
-    code_t = [t for t in co.calls('error::Error::code')]
-    R.floor('e.code() tests in handle_rx_packet', len(code_t), 1)
-    dup_edges = set()
-    for t in code_t:
-        tr = prims.track_result(F, co, t, success_variants=['Duplicate'])
-        dup_edges |= tr.success
-    if not dup_edges:
-        dup_edges, _ = prims.enum_local_edges(F, co, lambda pl: True, 'error::ErrorCode', ['Duplicate'])
-    excl = set()
-    for nm in ('transport::plain_hdr::PlainHdr::is_group_session', 'transport::network::Address::is_reliable', 'transport::exchange::MessageMeta::is_standalone_ack'):
-        for t in co.calls(nm):
-            excl |= prims.track_result(F, co, t).success
-    sb = {s_.bb for s_ in sites}
-    bad = []
-    for (frm, to) in dup_edges:
-        r = prims.reach(co, (to,), cut_edges=excl, cut_blocks=sb)
-        if set(co.ret_blocks()) & r:
-            bad.append(co.where(frm))
-    R.expect('P3', co.fn, 'every duplicate that wants an acknowledgement (not group, not reliable transport, not a standalone ack) is acknowledged again',
-             bool(dup_edges) and bool(excl) and not bad, 'Duplicate arm -> with_state(write ack) on every remaining path',
-             f'from the Duplicate arm at {bad} the function can return without re-acknowledging (dup_edges={sorted(dup_edges)})')
+    with R.clause('c'):
+        pass
+        hr = 'transport::TransportRunner::handle_rx_packet'
+        co = async_body(R, hr)
+        ack = closure_in(R, hr, ['ProtoHdr::set_ack', 'TransportRunner::write_packet', 'Sessions::get_for_rx'])
+        sites = closure_arg_sites(co, ack.fn)
+        R.floor('with_state(duplicate ack closure)', len(sites), 1)
+        sa = ack.calls('transport::proto_hdr::ProtoHdr::set_ack')[0]
+        s = prims.sources(ack, sa.d['a'][1])
+        R.expect('P10', ack.fn, 'the re-acknowledgement carries the duplicate\'s own counter', mentions(s, 'ctr') and mentions(s, 'plain'), 'set_ack(Some(packet.header.plain.ctr))', f'{sorted(map(str, s))[:6]}', ack.where(sa.bb))
+        R.expect('P3', ack.fn, 'set_ack precedes write_packet', not prims.precedes(ack, [sa.bb], call_bbs(ack, 'transport::TransportRunner::write_packet')), 'ok', 'write_packet reachable before set_ack')
+        wp = ack.calls('transport::TransportRunner::write_packet')[0]
+        wclo = [c for (i, j, st, c) in ack.closures_built()]
+        okop = any(('agg', 'sc::OpCode', 'MRPStandAloneAck') in _closure_aggs(F, c) for c in wclo)
+        R.expect('P10', ack.fn, 'the packet written is an MRP standalone acknowledgement', okop, 'OpCode::MRPStandAloneAck', 'opcode is not MRPStandAloneAck')
+        sends = [t.bb for t in co.calls('transport::TransportRunner::netw_send')]
+        bad = prims.always_followed_by(co, [e[1] for e in _succ(R, co, sites)], sends)
+        R.expect('P3', co.fn, 'a written duplicate-ack is always sent', not bad, 'with_state(ack) ok -> netw_send', 'a path skips netw_send after writing the ack')
+        # from the Duplicate arm
+        code_t = [t for t in co.calls('error::Error::code')]
+        R.floor('e.code() tests in handle_rx_packet', len(code_t), 1)
+        dup_edges = set()
+        for t in code_t:
+            tr = prims.track_result(F, co, t, success_variants=['Duplicate'])
+            dup_edges |= tr.success
+        if not dup_edges:
+            dup_edges, _ = prims.enum_local_edges(F, co, lambda pl: True, 'error::ErrorCode', ['Duplicate'])
+        excl = set()
+        for nm in ('transport::plain_hdr::PlainHdr::is_group_session', 'transport::network::Address::is_reliable', 'transport::exchange::MessageMeta::is_standalone_ack'):
+            for t in co.calls(nm):
+                excl |= prims.track_result(F, co, t).success
+        sb = {s_.bb for s_ in sites}
+        bad = []
+        for (frm, to) in dup_edges:
+            r = prims.reach(co, (to,), cut_edges=excl, cut_blocks=sb)
+            if set(co.ret_blocks()) & r:
+                bad.append(co.where(frm))
+        R.expect('P3', co.fn, 'every duplicate that wants an acknowledgement (not group, not reliable transport, not a standalone ack) is acknowledged again',
+                 bool(dup_edges) and bool(excl) and not bad, 'Duplicate arm -> with_state(write ack) on every remaining path',
+                 f'from the Duplicate arm at {bad} the function can return without re-acknowledging (dup_edges={sorted(dup_edges)})')
 
 
 def _succ(R, body, sites):
